@@ -12,7 +12,8 @@ from gnpy.core.parameters import SimParams
 from vf import workload as W
 from vf.gen import common as G
 
-FLAVOURS = ['mesh', 'mesh', 'mesh_pd', 'mesh_pd', 'multiband', 'openroadm', 'ggn', 'raman', 'mesh', 'multiband_gen']
+FLAVOURS = ['mesh', 'mesh', 'mesh_pd', 'mesh_pd', 'multiband', 'openroadm', 'ggn', 'raman', 'mesh', 'multiband_gen',
+            'p2p', 'mesh']
 
 
 def flavour(i):
@@ -114,6 +115,16 @@ def build_scenario(rng, flav, ctx, *, max_launch_dbm=5.0, n_jobs=None, span_kw=N
         tk.setdefault('per_freq_loss', rng.random() < 0.3)
         tk.setdefault('lumped', rng.random() < 0.3)
         b = W.build(rng, topo_kw=tk, span_kw=sk)
+    elif flav == 'p2p':
+        # point-to-point line without ROADMs (as the shipped edfa_example_network.json)
+        ej = G.eqpt_json()
+        edesc = G.vary_span_si(rng, ej, **sk)
+        equipment = G.make_equipment(ej)
+        tj = G.gen_p2p(rng, both=True, lumped=rng.random() < 0.3, per_freq_loss=rng.random() < 0.3)
+        network = G.make_network(tj, equipment)
+        G.reset_sim_params(None)
+        G.design(equipment, network)
+        b = {'ej': ej, 'tj': tj, 'equipment': equipment, 'network': network, 'edesc': edesc, 'tdesc': {}}
     elif flav == 'openroadm':
         name = G.pick(rng, ['eqpt_config_openroadm_ver4.json', 'eqpt_config_openroadm_ver5.json'])
         tk.setdefault('user_amps', False)
